@@ -505,8 +505,9 @@ def parse_authority(authority: bytes) -> list[Node]:
             )
         )
         offset += len(username)
-    if password:
+    if b":" in userinfo:
         offset += 1  # for the :
+    if password:
         out.append(
             Node(
                 "network.url.password",
